@@ -357,6 +357,17 @@ def run(tier, replay=None):
             for c, ob in zip(kc, kobs):
                 for what, t in ll.keepalive_monitor(c, ob):
                     violations.append((f"{c['kind'].upper()} link: " + what, c))
+    if not replay:
+        # shutdown through the real entry point (narwhal_server::run, TLS listener, worker threads, SIGTERM): every
+        # connected client is told SERVER_SHUTTING_DOWN and the process exits
+        import bootlib
+        rb = Rng(seed() + 77)
+        for _ in range(8 if thorough else 3):
+            bv, bst = bootlib.probe(rb)
+            stats["boot_shutdown_runs"] = stats.get("boot_shutdown_runs", 0) + 1
+            for what, lim in bv:
+                if "SIGTERM" in what or "did not stop" in what or "did not come up" in what:
+                    violations.append(("server started through narwhal_server::run: " + what, {"boot_limits": lim}))
     if (broken or disagreements) and not violations and not replay:
         log("proof/correspondence broken; extended search")
         search(400, "x", Rng(seed() + 7919))
